@@ -7,6 +7,7 @@ import (
 	"bufio"
 	"encoding/hex"
 	"fmt"
+	"math"
 	"math/big"
 	"os"
 	"runtime"
@@ -24,12 +25,16 @@ type parSpec struct {
 }
 
 type prog struct {
-	par   *parSpec
-	ctx   *context.Context
-	pid   string
-	vars  []*decimal.Decimal
-	ops   [][]string
-	extra []interface{}
+	par *parSpec
+	// operations run only in the parallel phase (and once sequentially before it, unprinted, for reference):
+	// read-only methods and operations the L3 store model does not have (Sqrt, Text ...)
+	parops  [][]string
+	parwant [][]string
+	ctx     *context.Context
+	pid     string
+	vars    []*decimal.Decimal
+	ops     [][]string
+	extra   []interface{}
 }
 
 func atoi(s string) int {
@@ -130,6 +135,8 @@ func execOp(p *prog, t []string) (outcome string, res []string) {
 			c.Abs(v(t[1]), v(t[2]))
 		case "CSet":
 			c.Set(v(t[1]), v(t[2]))
+		case "CSqrt":
+			c.Sqrt(v(t[1]), v(t[2]))
 		case "CErr":
 			err := c.Err()
 			if err == nil {
@@ -161,6 +168,19 @@ func execOp(p *prog, t []string) (outcome string, res []string) {
 		return
 	}
 	switch t[0] {
+	case "Sqrt": // parallel-phase only (R items): not an operation of the L3 store model
+		v(t[1]).Sqrt(v(t[2]))
+	case "Text":
+		res = append(res, "x:"+hex.EncodeToString([]byte(v(t[1]).Text(byte(atoi(t[2])), atoi(t[3])))))
+	case "MarshalText":
+		b, err := v(t[1]).MarshalText()
+		if err != nil {
+			panic(err)
+		}
+		res = append(res, "x:"+hex.EncodeToString(b))
+	case "Float64":
+		f, a := v(t[1]).Float64()
+		res = append(res, strconv.FormatUint(math.Float64bits(f), 16), strconv.Itoa(int(a)))
 	case "Cmp":
 		res = append(res, strconv.Itoa(v(t[1]).Cmp(v(t[2]))))
 	case "Sign":
@@ -345,6 +365,8 @@ func processLine(line string, w *bufio.Writer) {
 		case "C":
 			c := context.New(uint(atou(t[1])), decimal.RoundingMode(atoi(t[2])))
 			p.ctx = &c
+		case "R":
+			p.parops = append(p.parops, t[1:])
 		case "P":
 			p.par = &parSpec{nrecv: atoi(t[1]), k: atoi(t[2]), procs: atoi(t[3]), rounds: atoi(t[4]), gc: t[5] == "1"}
 		default:
@@ -376,6 +398,10 @@ func processLine(line string, w *bufio.Writer) {
 		}
 	}
 	if p.par != nil {
+		for _, o := range p.parops {
+			out, res := execOp(p, o)
+			p.parwant = append(p.parwant, append([]string{out}, res...))
+		}
 		mism, opchg := runParallel(p, snap)
 		fmt.Fprintf(w, "%s %d Par ok %d %d\n", p.pid, len(p.ops), mism, opchg)
 	}
@@ -445,6 +471,13 @@ func runParallel(p *prog, snap []decimal.VerifRaw) (mism, opchg int) {
 					if out, _ := execOp(q, o); out == "crash" {
 						bad++
 						break
+					}
+				}
+				for i, o := range p.parops {
+					out, res := execOp(q, o)
+					got := append([]string{out}, res...)
+					if strings.Join(got, " ") != strings.Join(p.parwant[i], " ") {
+						bad++
 					}
 				}
 				for i := 0; i < ps.nrecv; i++ {
